@@ -41,7 +41,7 @@ CHECKS.update({
     "C02": _conn("C02", "C02.AnsweredAtMostOnce/NoReplyToNotification/AnsweredWhenUsable/AnsweredBeforeTransportClosed/DupInflightIdAnswered"),
     "C03": _conn("C03", "C03.DispatchFIFO/NotificationCompletesFirst/NotifyReturnsAfterHandOff"),
     "C04": _conn("C04", "C04.PromptReturn/CancelAnnounced/OnlyMatchingSent/OnlyMatchingCancelled/MatchingHandlerCancelled"),
-    "C05": _conn("C05", "C05.TransportClosedOnlyAfterHandlers/AnsweredBeforeTransportClosed/NoDispatchAfterClose/CloseReturns/WaitReturns/Removed/NoLeak/NoPanic and, on real client/server pairs scripted by PairEnv.tla, C05.PairCloseReturns/PairWaitReturns/PairRemoved/PairNoLeak"),
+    "C05": _conn("C05", "C05.TransportClosedOnlyAfterHandlers/AnsweredBeforeTransportClosed/NoDispatchAfterClose/CloseReturns/WaitReturns/Removed/NoLeak/NoPanic and, on real client/server pairs scripted by PairEnv.tla, C05.PairCloseReturns/PairWaitReturns/PairRemoved/PairNoLeak, and on a 2026-07-28 pair with listen streams, failing writes and vanishing peers scripted by PairSub.tla, C05.PairSubCloseReturns/WaitReturns/Removed/CallsComplete/NoDispatchAfterClose/HandlerNotCancelled/TransportClosedAfterHandlers/NoLeak(AfterClose)/NoPanic"),
     "C07": dict(
         engine="Negotiate", category="model_checking",
         text=("NegotiateDefs.tla states C07 as five declarative clauses over (configuration, outcome) plus a check-by-check transcription of the client and "
